@@ -233,7 +233,7 @@ func (el *eventloop) open(c *conn) error {
 	c.opened = true
 
 	out, action := el.eventHandler.OnOpen(c)
-	if out != nil {
+	if out != nil && c.opened { // the connection may have been closed inside OnOpen
 		if err := c.open(out); err != nil {
 			return err
 		}
